@@ -6,7 +6,15 @@ From Coq Require Import Strings.String Strings.Byte.
 From Coq Require Import List NArith.
 From Goit Require Import Bytes Tree Index IndexFacts DiffFacts TreeFacts.
 From Goit Require Import Obj World Repo ExactFacts.
+From Goit Require Import Bridge.
 Import ListNotations.
+
+(* T0 (tie to the source): every regexp literal of the current Go source denotes
+   the same language, with the same anchoring, as the pattern of the model — proved
+   by running the verified equivalence checker on SrcRegex.v, which is regenerated
+   from /repo on every run (see Bridge.v) *)
+Theorem C09_source_patterns_are_the_models : source_patterns_agree.
+Proof. exact source_patterns. Qed.
 
 (* a directory argument selects exactly the tracked paths beneath "<name>/",
    whether or not they exist on disk; never a path that merely contains the
@@ -76,3 +84,4 @@ Print Assumptions C09_remove_entry_exact.
 Print Assumptions C09_restore_worktree_spec.
 Print Assumptions C09_restore_unknown_refused.
 Print Assumptions C09_restore_staged_spec.
+Print Assumptions C09_source_patterns_are_the_models.
